@@ -12,3 +12,37 @@ def run(ck):
     extra = getattr(tables, 'D_EXTRA', {}).get('C05')
     if extra:
         extra(ck, w)
+    m1_mod_exp(ck, w)
+
+
+def m1_mod_exp(ck, w):
+    """x^n mod m is reduced on every path"""
+    from ..engines import mustcall as mc, reach
+    ck.rule('C05.M1', 'BigUintGadget::mod_exp returns a value reduced modulo m for every exponent: every success path passes a reduction (mod_mul or div_rem).  The '
+                      'square-and-multiply loop reduces only through mod_mul, which is not called for n = 1 (and n = 0 returned the constant 1 whatever m is): '
+                      'mod_exp(10, 1, 7) returned 10')
+    nid = 'midnight_circuits::biguint::biguint_gadget::BigUintGadget::mod_exp'
+    b = w.mir_body(nid, required=False)
+    if b is None:
+        ck.bad('C05.M1', 'mod_exp:anchor', f'{nid} not found (anchor)')
+        return
+    ok, sites = mc.must_call(b, lambda c, t: c.endswith('BigUintGadget::mod_mul') or c.endswith('BigUintGadget::div_rem'))
+    if not ok:
+        # accepted alternative: the exponents the loop does not reduce (0 and 1) are answered by early returns that reduce
+        from ..core import walk, peel, callee
+        from ..engines import hirq
+        f = w.fn(nid)
+        guarded = set()
+        for n in walk(f['body']):
+            if n.get('k') != 'if':
+                continue
+            c = peel(n['c'])
+            if c.get('k') == 'bin' and c.get('op') == '==':
+                lits = [peel(x).get('v') for x in (c['a'], c['b']) if peel(x).get('k') == 'lit']
+                names = [peel(x).get('n') for x in (c['a'], c['b']) if peel(x).get('k') == 'local']
+                rets = [r for r in walk(n['a']) if r.get('k') == 'ret' and any((callee(m) or '').endswith(('BigUintGadget::div_rem', 'BigUintGadget::mod_mul')) for m in hirq.calls(r))]
+                if lits and names == ['n'] and rets:
+                    guarded.add(lits[0])
+        ok = {'i:0', 'i:1'} <= guarded
+    ck.record('C05.M1', 'mod_exp:reduced-on-every-path', ok, f'every success path reduces ({len(sites)} reduction sites)',
+              'BigUintGadget::mod_exp has a success path without mod_mul / div_rem: for some exponent the result is returned unreduced', reach.loc(b))
